@@ -88,6 +88,9 @@ EvIter(e) ==
         /\ P("C17", "trained on at least min_samples", e.train_n >= e.min_samples)
         /\ P("C04", "reported number removed",
                 e.n_removed = (IF e.replace_all THEN e.pre_remove.n_live ELSE e.pre_remove.n_below))
+        \* ---- C09 (importance proposal): exactly the requested number of new samples
+        /\ P("C09", "ins_draw_returns_exactly_n",
+                e.n_added = (IF e.draw_constant \/ e.replace_all THEN e.nlive_cfg ELSE e.n_removed))
         \* ---- C05 / counts
         /\ P("C05", "samples = sum of the draws of every level", e.n_main = Sum(e.counts))
         \* ---- C15
@@ -170,6 +173,10 @@ EvDoneAgain(e) ==
     /\ P("C15", "run_again_same_result", e.same_as_done)
     /\ UNCHANGED <<s, disk, levels, aux>>
 
+EvOutside(e) ==
+    /\ P("C09", "likelihood_called_outside_support", FALSE)
+    /\ UNCHANGED <<s, disk, levels, aux>>
+
 EvOther(e) == UNCHANGED <<s, disk, levels, aux>>
 
 TraceStep ==
@@ -183,6 +190,7 @@ TraceStep ==
            [] e.ev = "ins_final"  -> EvFinal(e)
            [] e.ev = "done"       -> EvDone(e)
            [] e.ev = "done_again" -> EvDoneAgain(e)
+           [] e.ev = "ll_outside" -> EvOutside(e)
            [] OTHER               -> EvOther(e)
     /\ l' = l + 1 /\ tid' = tid /\ Keep
 
